@@ -253,10 +253,15 @@ def oracle(cases, impl, order):
                     if len(bg["after"]) == len(bg["before"]):
                         check_bg_obs(bg, fail, bump)
                         bg = None
-            elif kind in ("C", "L"):
+            elif kind in ("C", "L", "K"):
                 bump(kind)
                 bg = dict(cid=cid, kind=kind, case=c, out=out, before=dict(obs_run), after=None, ph=ph)
-                if kind == "C":
+                if kind == "K":
+                    # a real engine compaction: judge what disappeared
+                    bg["out"] = c[2] if len(c) > 2 else ""
+                    if bg["out"]:
+                        bump("K dropped something")
+                if kind in ("C", "K"):
                     check_filter(bg, ph, now0, fail, bump)
                 bg["after"] = {}
                 bg["before"] = {kk: vv for kk, vv in obs_run.items()}
@@ -427,7 +432,7 @@ def check_bg_obs(bg, fail, bump):
         o2 = bg["after"].get(tk)
         if o2 is None or o2 == o:
             continue
-        if bg["kind"] == "C":
+        if bg["kind"] in ("C", "K"):
             fail("visible", bg["cid"], "a compaction step changed what a reader sees: [%s] -> [%s]" % (o, o2), type=tk[0], key=tk[1])
         else:
             scan = int(bg["case"][1])
@@ -498,6 +503,7 @@ def run(ctx):
             runs.append(("corpus-" + cf[:-4], "-replay %s" % os.path.join(vlib.VERIF, "corpus", "C10", cf)))
         if quick:
             runs.append(("fresh", "-seed %d -n 260 -len 30 -engines mem,pebble" % ctx.seed))
+            runs.append(("rocks", "-seed %d -n 24 -len 30 -engines rocksdb" % (ctx.seed + 7)))
         else:
             runs.append(("fresh", "-seed %d -n 3000 -len 40 -engines mem,pebble" % ctx.seed))
             runs.append(("rocks", "-seed %d -n 300 -len 40 -engines rocksdb" % (ctx.seed + 7)))
@@ -527,7 +533,7 @@ def run(ctx):
         cur = None
         for cid in order:
             c = cases[cid]
-            if c[0] in ("W", "C", "L", "A"):
+            if c[0] in ("W", "C", "L", "A", "K"):
                 distinct.add(vlib.case_hash(sub + "\t".join(c[2:] if c[0] == "W" else c)))
         ids = [i for i in order if cases[i][0] == "W"]
         for cid in ids[:2] + ids[-1:]:
@@ -592,5 +598,5 @@ def run(ctx):
         "log timestamps and expiry instants are kept >= 20 days away from the wall clock (and from wall clock - 48 h), so no comparison depends on sub-day clock values",
         "the ts = 0 escape of isExpired is outside the property (hypothesis ts > 0); writes with ts = 0 are generated (2 %) and diffed against the model, but not judged by the direct oracle; that real entries carry ts > 0 is checked on every run on a live single-process server driven through the redis protocol (timestamps read back from the engine must lie inside the wall-clock window of the run)",
         "integer scores only; the second (score) index of sorted sets is not represented in the model",
-        "compaction on mem / pebble is simulated: the production rockCompactFilter.Filter decides per raw key, the harness deletes a seeded subset of the allowed keys (these engines never call the filter); real compaction runs on rocksdb in the thorough tier",
+        "compaction on mem / pebble is simulated: the production rockCompactFilter.Filter decides per raw key, the harness deletes a seeded subset of the allowed keys (these engines never call the filter); on rocksdb additionally real CompactAllRange runs (steps K): whatever disappears must be allowed by the model's filter predicate and by the direct oracle",
     ])
